@@ -81,8 +81,10 @@ def run_explore_check(prop, tier, jobs, only=None, time_s=None, note="", assumpt
     else:
         per_job_time = int(max(60, min(900, 1400 * vlib.NCPU / max(1, len(jobs)))))
     argv_jobs = []
+    all_mon = sorted(set(MON_OWNERS) | {"M-report"})
     for j in jobs:
-        argv = [exes[(j["h"], j["cfg"])]] + shlex.split(j["args"]) + ["--time_s", str(per_job_time), "--name", j["name"]]
+        owned = [m for m in all_mon if owns(prop, m, j["moves"]) or m in j.get("own", [])]
+        argv = [exes[(j["h"], j["cfg"])]] + shlex.split(j["args"]) + ["--time_s", str(per_job_time), "--name", j["name"], "--own", ",".join(owned) or "M-sane"]
         argv_jobs.append((j["name"], argv))
     results = vlib.run_jobs(argv_jobs, timeout=per_job_time + 120)
     tot_states = tot_trans = tot_replays = 0
